@@ -713,9 +713,55 @@ func verdictOf(r *run) string {
 		return v
 	}
 	if !jsonEqual(r.onceJSON, r.twiceJSON) {
+		if onlyPodPortsOfUserProxy(r) {
+			// known finding F10e, classified exactly: see notes/C19.md
+			return "FAIL idempotent-podports-user-proxy-ports " + wire.Enc(firstDiff(r.onceJSON, r.twiceJSON))
+		}
 		return "FAIL idempotent " + wire.Enc(firstDiff(r.onceJSON, r.twiceJSON))
 	}
 	return "OK injected"
+}
+
+// onlyPodPortsOfUserProxy: the pod customises the sidecar with a container (or recorded override) named istio-proxy
+// that declares ports, and once / twice differ in nothing but the value of the sidecar's ISTIO_META_POD_PORTS.
+func onlyPodPortsOfUserProxy(r *run) bool {
+	userPorts := false
+	for _, c := range append(append([]corev1.Container{}, r.orig.Spec.Containers...), r.orig.Spec.InitContainers...) {
+		if c.Name == inject.ProxyContainerName && len(c.Ports) > 0 {
+			userPorts = true
+		}
+	}
+	if ov, ok := r.orig.Annotations[annotation.ProxyOverrides.Name]; ok {
+		var pc inject.ParsedContainers
+		if json.Unmarshal([]byte(ov), &pc) == nil {
+			for _, c := range pc.AllContainers() {
+				if c.Name == inject.ProxyContainerName && len(c.Ports) > 0 {
+					userPorts = true
+				}
+			}
+		}
+	}
+	if !userPorts {
+		return false
+	}
+	blank := func(p *corev1.Pod) []byte {
+		q := p.DeepCopy()
+		for _, l := range [][]corev1.Container{q.Spec.Containers, q.Spec.InitContainers} {
+			for i := range l {
+				if l[i].Name != inject.ProxyContainerName {
+					continue
+				}
+				for j := range l[i].Env {
+					if l[i].Env[j].Name == "ISTIO_META_POD_PORTS" {
+						l[i].Env[j].Value = ""
+					}
+				}
+			}
+		}
+		b, _ := json.Marshal(q)
+		return b
+	}
+	return jsonEqual(blank(r.once), blank(r.twice))
 }
 
 func jsonEqual(a, b []byte) bool {
